@@ -1,6 +1,6 @@
 (* Model of pkg/utils/json.go EscapeJsonStr, after the Go: index loop with `start`, checked
    accesses, fuel for the loop (its `i` is not advanced on every path).  Definitions only. *)
-From LR Require Import lib.Base lib.DecLib model.DecUtf8.
+From LR Require Import lib.Base lib.DecLib model.DecUtf8 model.DecTree.
 
 Local Open Scope Z_scope.
 
@@ -45,5 +45,7 @@ Fixpoint escape_go (fx : bool) (fuel : nat) (s : bytes) (i start : Z) (e : bytes
 
 Definition escape_fuel (fuel : nat) (s : bytes) : outcome bytes := escape_go false fuel s 0 0 [x22].
 (* one loop iteration per byte is enough whenever the loop advances *)
-Definition escape_json (s : bytes) : outcome bytes := escape_fuel (S (length s)) s.
-Definition escape_json_fixed (s : bytes) : outcome bytes := escape_go true (S (length s)) s 0 0 [x22].
+Definition escape_json_g (fx : bool) (s : bytes) : outcome bytes := escape_go fx (S (length s)) s 0 0 [x22].
+Definition escape_json_fixed (s : bytes) : outcome bytes := escape_json_g true s.
+(* the variant on the tree *)
+Definition escape_json (s : bytes) : outcome bytes := escape_json_g tree_escape_fx s.
